@@ -18,7 +18,9 @@ const NAMES: [&str; 4] = ["x", "y", "z", "w"];
 
 fn failing_statement(r: &mut Prng, vars: &[(String, Val)]) -> (Expr, &'static str) {
     let a_var = || -> Option<String> { vars.first().map(|(n, _)| n.clone()) };
-    match r.below(8) {
+    match r.below(10) {
+        8 => (bin("=", lit_s("abc"), lit_i(2)), "non_name_target"),
+        9 => (bin("+=", lit_s("x"), lit_i(2)), "non_name_target"),
         0 => (bin("+", lit_b(true), lit_i(1)), "wrong_operand_type"),
         1 => (bin("=", rf("x"), bin("&&", lit_i(1), lit_b(true))), "wrong_operand_type"),
         2 => (bin("+=", rf("never_bound"), lit_i(1)), "unbound_name"),
